@@ -37,6 +37,21 @@ theorem alignUp_unique (off a r : Nat) (ha : 0 < a) (hd : a ∣ r) (h1 : off ≤
     have := Nat.le_of_dvd (by omega) this
     omega
 
+theorem roundChunk_ge (e a : Nat) (ha : 0 < a) : e ≤ roundChunk e a := by
+  unfold roundChunk
+  have := alignUp_ge e a ha
+  split <;> omega
+
+theorem roundChunk_dvd (e a : Nat) : a ∣ roundChunk e a := by
+  unfold roundChunk
+  split
+  · exact Nat.dvd_refl _
+  · exact alignUp_dvd e a
+
+theorem roundChunk_pos (e a : Nat) (ha : 0 < a) : 0 < roundChunk e a := by
+  unfold roundChunk
+  split <;> omega
+
 theorem alignUp_of_dvd (off a : Nat) (ha : 0 < a) (hd : a ∣ off) : alignUp off a = off :=
   (alignUp_unique off a off ha hd (Nat.le_refl _) (by omega)).symm
 
@@ -254,7 +269,7 @@ theorem rel_in_chunk (cap : Nat) (cs : List Comp) (ca : Nat) (h : WF cs) (hca : 
     rel cap cs i k + sizeAt cs i ≤ offsetOf cap 0 cs i + cap * sizeAt cs i ∧
     offsetOf cap 0 cs i + cap * sizeAt cs i ≤ endOf cap 0 cs ∧
     endOf cap 0 cs ≤ chunkSizeOf cap cs ca := by
-  refine ⟨?_, col_end cap 0 cs h i hi, alignUp_ge _ _ hca⟩
+  refine ⟨?_, col_end cap 0 cs h i hi, roundChunk_ge _ _ hca⟩
   have := slot_in_col cap (sizeAt cs i) k hk
   rw [rel_eq]; omega
 
